@@ -1,14 +1,18 @@
-(* C01p: translation validation of real plans.  The universe-free plan validator, the universe contract,
-   the translation target and the model's own requests / execution are extracted from coq/C01. *)
+(* C01p: translation validation of real plans.  The universe-free plan validator [tv2_static_b], the universe
+   contract, the translation target [dfield2], the model's own requests and its execution are extracted
+   from coq/C01 (ProofsPlan2*.v, ProofsTv*.v). *)
 From Gv Require Import lib.Bytes lib.Json lib.Gql lib.Exec lib.ExtractAnchor
      C01.ProofsBase C01.ProofsSplit C01.ProofsSim C01.ProofsJoin C01.ProofsTwoStep C01.ProofsCtxBase C01.ProofsCtx
-     C01.ProofsTwoStepWf C01.ProofsPlanAlg C01.ProofsPlan C01.ProofsPlanOk
-     C01.ProofsTvStatic C01.ProofsTvDefs.
+     C01.ProofsTwoStepWf C01.ProofsPlanAlg C01.ProofsPlan C01.ProofsPlanOk C01.ProofsDedup C01.ProofsListHop
+     C01.ProofsTvStatic C01.ProofsTvDefs C01.ProofsTvHidden C01.ProofsPlanGen C01.ProofsPlan2 C01.ProofsTvMain C01.ProofsPlan3.
 Require Import ExtrOcamlBasic.
 Extraction Language OCaml.
 Extraction "model.ml" extraction_anchor json_eqb execute find_entity doc_size
-  tv_static_b field2_shape_b plan_static_b field_static_b fetch_static_b
-  univ_contract_b ent_contract_b univ_ok_b key_consistent plan_subs to_dfield client_doc model_requests
-  plan_of run_plan mono_plan plan_fuel repr_from key_names pvars root_sel
-  req_ok_b config_wf_b keys_disjoint keys_unaliased flat_okb flat_of key_declared reqs_static_b
-  sels_noent frags_noent keys_distinct is_leaf_kind declared_obj ty_eqb not_repr.
+  tv2_static_b plan2_static_b field2_static_b fetch2_static_b order_ok_b
+  univ2_contract_b ent_contract_b univ_ok_b key_consistent
+  client_doc3 model_requests3 gateway3 mono_client3
+  client_doc2 model_requests2 gateway2 mono_client2 mono_ab2 plan2_fuel
+  repr_from key_names pvars root_sel2 d2_key d2_selA d2_selB sub_at shape_ty
+  dedup collect_reprs
+  req_ok_b config_wf_b keys_disjoint keys_unaliased flat_okb flat_of key_covered repr_fields_ok reqs_static_b
+  sels_noent frags_noent names_distinct is_leaf_kind declared_obj ty_eqb not_repr sels_top_nokey.
